@@ -2,6 +2,7 @@
 #![allow(dead_code)]
 use super::*;
 use crate::kani_support::*;
+use crate::kani_support::{N_CALLS, N_LAST_P};
 use core::sync::atomic::{AtomicUsize, Ordering::SeqCst};
 use statrs::distribution::{ContinuousCDF, Normal, StudentsT};
 
@@ -261,4 +262,33 @@ fn c09_proportion_stats_merge() {
     let before = a;
     let _ = (a.population(), a.successes(), a.is_significant());
     assert!(a == before, "C09:proportion:query-modifies-state");
+}
+
+// every proportion call consults the normal quantile afresh at ITS OWN confidence (no dependence on earlier calls)
+fn q_of(c: &Confidence) -> f64 {
+    match c {
+        Confidence::TwoSided(l) => 1.0 - (1.0 - l) / 2.0,
+        Confidence::UpperOneSided(l) | Confidence::LowerOneSided(l) => *l,
+    }
+}
+#[kani::proof]
+#[kani::stub(<Normal as ContinuousCDF<f64, f64>>::inverse_cdf, icdf_n_stub)]
+fn c06_wilson_quantile_per_call() {
+    let c1 = any_conf();
+    let c2 = any_conf();
+    kani::cover!(c1.level() == c2.level() && conf_kind(&c1) != conf_kind(&c2), "same level, different kinds");
+    let _ = ci_wilson(c1, 400, 120);
+    assert!(N_CALLS.load(SeqCst) == 1 && N_LAST_P.load(SeqCst) == q_of(&c1).to_bits(), "C06:wilson:quantile-argument");
+    let _ = ci_wilson(c2, 400, 120);
+    assert!(N_CALLS.load(SeqCst) == 2 && N_LAST_P.load(SeqCst) == q_of(&c2).to_bits(), "C06:wilson:history-dependent");
+}
+#[kani::proof]
+#[kani::stub(<Normal as ContinuousCDF<f64, f64>>::inverse_cdf, icdf_n_stub)]
+fn c06_z_normal_quantile_per_call() {
+    let c1 = any_conf();
+    let c2 = any_conf();
+    let _ = ci_z_normal(c1, 400, 120);
+    assert!(N_CALLS.load(SeqCst) == 1 && N_LAST_P.load(SeqCst) == q_of(&c1).to_bits(), "C06:z_normal:quantile-argument");
+    let _ = ci_z_normal(c2, 400, 120);
+    assert!(N_CALLS.load(SeqCst) == 2 && N_LAST_P.load(SeqCst) == q_of(&c2).to_bits(), "C06:z_normal:history-dependent");
 }
